@@ -36,6 +36,8 @@ TxAlphabet ==
      { Tx(<<[t |-> "Raise", pur |-> a, amt |-> n, denom |-> "nund"]>>) : a \in AcctSet, n \in {3, 5} }
   \cup { Tx(<<[t |-> "Decide", signer |-> a, id |-> i, d |-> d]>>) : a \in AcctSet, i \in 1..MaxPo, d \in {"accept", "reject"} }
   \cup { Tx(<<[t |-> "Whitelist", signer |-> a, addr |-> b, act |-> c]>>) : a \in {"A1", "A3"}, b \in {"A3", "A4"}, c \in {"add", "remove"} }
+  \* the same decision with the signer's address in its all upper-case spelling (the same account)
+  \cup { Tx(<<[t |-> "Decide", signer |-> a, id |-> i, d |-> "accept", enc |-> "upper"]>>) : a \in {"A1", "A2"}, i \in 1..MaxPo }
   \* an order raised inside a transaction that is rolled back (the id stays free)
   \cup { Tx(<<[t |-> "Raise", pur |-> "A3", amt |-> 5, denom |-> "nund"], [t |-> "Raise", pur |-> "A3", amt |-> 3, denom |-> "nund"], [t |-> "Raise", pur |-> "A3", amt |-> 3, denom |-> "foo"]>>) }
   \cup { GovTx(Presets[i]) : i \in (IF FailingGov THEN {} ELSE DOMAIN Presets) }
